@@ -346,9 +346,12 @@ func (r *Runner) bufBytesFor(fn, name string) [][]byte {
 	case has("hash") || n == "h":
 		return [][]byte{p.hash32, p.hash20}
 	case n == "buf" && strings.HasPrefix(fn, "tx."):
-		return [][]byte{p.rawTx}
+		// also cut short by one byte and by a few: a parser that runs off the end of its argument reads
+		// the spare capacity behind it
+		return [][]byte{p.rawTx, p.rawTx[:len(p.rawTx)-1], p.rawTx[:len(p.rawTx)-5], p.rawTx[:41]}
 	case n == "buf":
-		return [][]byte{{0x21}, {0xfd, 0x03, 0x02}, {0xfe, 1, 2, 3, 4, 9}, {0xff, 1, 2, 3, 4, 5, 6, 7, 8}}
+		return [][]byte{{0x21}, {0xfd, 0x03, 0x02}, {0xfe, 1, 2, 3, 4, 9}, {0xff, 1, 2, 3, 4, 5, 6, 7, 8},
+			{0xfd, 0x03}, {0xfe, 1, 2, 3}, {0xff, 1, 2, 3, 4, 5, 6, 7}, {0xfd}, {0xfe, 1}, {0xff, 1, 2, 3}, {}}
 	}
 	return append([][]byte{p.hash20, p.hash32, p.pubC, p.rawTx[:78]}, r.bufRandom()...)
 }
